@@ -68,3 +68,20 @@ Record fs_wf (f : fs) : Prop := {
               is_dir f i = true -> j1 = j2 /\ n1 = n2;                (* a directory has one parent entry *)
   wf_acyclic : acyclic f                                              (* no directory below itself *)
 }.
+
+(* ---- the deferred parents of copier.copy (include patterns) ----
+   The stack c.parentDirs holds (source path, destination path, copied) for the directories the
+   walk is inside of; those with copied = false have not been created at the destination yet.
+   [deferred_targets dcs cs pend]: the destination paths "<dstRoot>/cs/p1", "<dstRoot>/cs/p1/p2", …
+   of the pending directories pend below "<dstRoot>/cs". *)
+Definition uncopied_targets (ps : list (bytes * bytes * bool)) : list bytes :=
+  map (fun e => snd (fst e)) (filter (fun e => negb (snd e)) ps).
+
+Fixpoint deferred_targets (dcs cs pend : list bytes) : list bytes :=
+  match pend with
+  | [] => []
+  | p :: r => render (dcs ++ cs ++ [p]) :: deferred_targets dcs (cs ++ [p]) r
+  end.
+
+Definition cst_with_parents (f : fs) (ps : list (bytes * bytes * bool)) : cst :=
+  {| s_fs := f; s_links := []; s_parents := ps; s_reads := [] |}.
